@@ -265,6 +265,7 @@ func (m *locker) try(ctx context.Context, cancel context.CancelFunc, name string
 	deadline := now.Add(duration)
 	canceltm := time.AfterFunc(duration, cancel)
 	released := int32(0)
+	finished := int32(0)
 	acquired := int32(0)
 	failures := int32(0)
 
@@ -289,11 +290,15 @@ func (m *locker) try(ctx context.Context, cancel context.CancelFunc, name string
 				}
 			}
 		}
+		// count the key as gone and end the lock context first: giving the key up below may
+		// be what costs the majority, and the context must not outlive that.
+		if atomic.AddInt32(&released, 1) >= m.majority {
+			cancel()
+		}
 		if !errors.Is(err, ErrNotLocked) {
 			_ = m.script(context.Background(), delkey, key, val, deadline)
 		}
-		if released := atomic.AddInt32(&released, 1); released >= m.majority {
-			cancel()
+		if released := atomic.AddInt32(&finished, 1); released >= m.majority {
 			if released == m.totalcnt && atomic.LoadInt32(&failures) < m.majority {
 				m.mu.Lock()
 				if g.w--; g.w == 0 {
